@@ -6,9 +6,9 @@
 (* with any sequence number at any moment - the bounds TLC's exhaustive    *)
 (* job (ScpDesign: NCmd = 3, Window <= 2, MaxTries <= 2, SeqMod = 4,       *)
 (* 2 bursts) cannot lift.  Only the number of commands per burst is        *)
-(* bounded: NCmd <= CmdBound = 8 (the per-command functions need a fixed   *)
-(* domain).  Gen(8) for the table and the callback queue loses nothing:    *)
-(* IndInv (OneEntryPerCommand, QueuedOnce, TypeOK) puts at most NCmd <= 8  *)
+(* bounded: NCmd <= CmdBound = 4 (the per-command functions need a fixed   *)
+(* domain).  Gen(4) for the table and the callback queue loses nothing:    *)
+(* IndInv (OneEntryPerCommand, QueuedOnce, TypeOK) puts at most NCmd <= 4  *)
 (* entries in either.                                                      *)
 (*                                                                         *)
 (*   apalache-mc check --cinit=ConstInit --init=IndInit --next=Next        *)
@@ -33,7 +33,7 @@ IndInv ==
     /\ ReturnedComplete /\ TimeoutHonest
 
 IndInit ==
-    /\ nextCmd = Gen(1) /\ outst = Gen(8) /\ cbq = Gen(8) /\ doneCnt = Gen(8) /\ txCnt = Gen(8)
+    /\ nextCmd = Gen(1) /\ outst = Gen(4) /\ cbq = Gen(4) /\ doneCnt = Gen(4) /\ txCnt = Gen(4)
     /\ seqCtr = Gen(1) /\ now = Gen(1) /\ culprit = Gen(1)
     /\ pc \in {"run", "returned", "timeout", "fatal"}
     /\ IndInv
